@@ -56,6 +56,11 @@ def values():
     V.append(("array-edge", "float [[-0.0, 5e-324, 1e300]]", lambda: np.array([[-0.0, 5e-324, 1e300]])))
     V.append(("array-edge", "float [[1e-300],[-1.7976931348623157e308]]", lambda: np.array([[1e-300], [-1.7976931348623157e308]])))
     V.append(("array-edge", "complex signs of zero", lambda: np.array([[complex(-0.0, -0.0), complex(1, -0.0)], [complex(-0.0, 2), complex(0.0, -5e-324)]])))
+    # entries of every width 1..7 in one column (what a writer that lines columns up, pads, or wraps long rows would trip over)
+    V.append(("array-edge", "int widths 1..7 per column", lambda: np.array([[1, -2, 7], [10, 33, 7], [100, -444, 7], [1000, 5555, 7], [10000, -66666, 7], [-100000, 777777, 7], [1000000, -8888888, 7]], dtype=np.int64)))
+    V.append(("array-edge", "float widths", lambda: np.array([[1.0, 0.5, 2.0], [1000.5, -0.125, 2.0], [1e-05, 123456.789, 2.0], [-1e+20, 0.1, 2.0]])))
+    V.append(("array-edge", "complex widths", lambda: np.array([[1 + 1j, 0.5j], [1000.5 - 250j, -0.125 + 100000j]])))
+    V.append(("array-edge", "one long row", lambda: np.array([list(range(1, 41))], dtype=np.int64)))
     V.append(("array-edge", "int64 extremes", lambda: np.array([[2 ** 63 - 1, -2 ** 63]], dtype=np.int64)))
     # sizes beyond what array printers wrap or abbreviate (75 characters per line, 1000 elements)
     V.append(("array-large", "int identity 30x30", lambda: np.eye(30, dtype=np.int64)))
